@@ -15,6 +15,7 @@ TRUSTED = [
     "LLVM -O2 is semantics-preserving (the IR analysed is the optimised IR)",
     "the rewrite rules of engine/terms.py (each a value-independent identity of bit-vector / two's-complement arithmetic)",
     "the spec forms and reviewed templates of catalogue/specs.py",
+    "engine/octa.py (octagon case analysis over the exact operands: decides the saturating add/sub whose select nest no template matches -- the branchy scalar overloads and the 64-bit kernels built on the emulated compare; anything outside its fragment is 'not established')",
     "intrinsic models of engine/lanes.py (blendv, movmsk, pmov, uniform shifts, LUT projection analysis)",
 ]
 ASSUMPTIONS = [
@@ -260,7 +261,7 @@ def c05(a):
 
 
 def c04(a):
-    return run('C04', 'proof', a, 'one obligation per (load/store form, element type, configuration): byte footprint through the pointer argument is exactly the register (no byte outside read/written, none skipped), lane i <-> element i, IR alignment assumption <= what the contract grants; gather/scatter: exactly n element accesses at base + index-lane-i * sizeof(T)')
+    return run('C04', 'proof', a, 'one obligation per (load/store form, element type, configuration): byte footprint through the pointer argument is exactly the register (no byte outside read/written, none skipped), lane i <-> element i, IR alignment assumption <= what the contract grants; gather/scatter: exactly n element accesses at base + sext(index lane i) * sizeof(T) (a zero-extended signed index is a violation), every element width')
 
 
 def c06(a):
